@@ -281,6 +281,11 @@ def r12_4(cx):
         cx.report('R12.4', c, 'closure-append', okc, 'closure appends replace_with[mat.pattern()] to the destination it is handed' if okc else why)
         rets = [c.rvalue_term(st['r'], 0, bi) for bi, si, pl, st in c.stores() if si != 'term' and pl['l'] == 0 and not pl['pr']]
         okt = bool(rets) and all(x == ('c', 1) for x in rets)
+        # every path through the closure appends exactly once (a conditional append deletes the matched text)
+        from acverif.sym import summarize as _sm
+        crow = [r for r in _sm(cx.facts, c) if r.end == 'return']
+        okall = bool(crow) and all(len([x for x in r.calls(APPEND)]) == 1 for r in crow)
+        cx.report('R12.4', c, 'closure-unconditional', okall, 'the replacement is appended on every path through the closure' if okall else 'the closure appends the replacement only on some paths (a skipped append deletes the matched text)')
         cx.report('R12.4', c, 'closure-true', okt, 'closure always returns true' if okt else 'closure may return %s' % [tstr(x) for x in rets])
 
 
